@@ -8,3 +8,4 @@ import Carapace.Props.C08
 import Carapace.Props.C10
 import Carapace.Props.C11
 import Carapace.Props.C12
+import Carapace.Props.C13
